@@ -241,6 +241,58 @@ impl Adapter for SharedStore {
 
 /// A live replica refreshes while files arrive; an item that was already seen by an earlier refresh is damaged in
 /// place before the block depending on it becomes applicable. The damaged item must not be trusted.
+/// A pack that a live replica first sees damaged (half copied, or one byte wrong) and that is complete at a later
+/// refresh: the replica must end up with the full state, like a replica opened on the storage, and not stay stuck.
+pub fn repaired_damage() {
+    let (src, s1, s2, items1, items2) = two_commits();
+    let map = Arc::new(Mutex::new(BTreeMap::new()));
+    let ad: Ad = Arc::new(RwLock::new(Box::new(SharedStore { map: map.clone() })));
+    let get = |k: &str| src.read().unwrap().read_object(k, 0, 0).unwrap();
+    for k in &items1 {
+        ad.write().unwrap().write_object(k, &get(k)).unwrap();
+    }
+    let mut t = Melda::new(ad.clone()).expect("Melda::new");
+    assert!(state(&t) == s1, "first commit not applied");
+    let first = items2.iter().position(|k| k.ends_with(".pack")).expect("second commit wrote a pack");
+    let k1 = items2[first].clone();
+    let orig = get(&k1);
+    let damaged: Vec<u8> = if sym::any_bool() {
+        orig[..orig.len() / 2].to_vec()
+    } else {
+        let mut c = orig.clone();
+        let pos = c.len() / 2;
+        let nb = sym::any_u8();
+        sym::assume(nb != c[pos]);
+        c[pos] = nb;
+        c
+    };
+    map.lock().unwrap().insert(k1.clone(), damaged);
+    let block_first = sym::any_bool();
+    if block_first {
+        for (i, k) in items2.iter().enumerate() {
+            if i != first {
+                ad.write().unwrap().write_object(k, &get(k)).unwrap();
+            }
+        }
+    }
+    if t.refresh().is_ok() {
+        assert!(state(&t) == s1, "a block was applied although its pack is damaged");
+    }
+    // the copy completes
+    map.lock().unwrap().insert(k1.clone(), orig);
+    if !block_first {
+        for (i, k) in items2.iter().enumerate() {
+            if i != first {
+                ad.write().unwrap().write_object(k, &get(k)).unwrap();
+            }
+        }
+    }
+    t.refresh().expect("refresh after the damaged pack was completed");
+    assert!(state(&Melda::new(ad.clone()).expect("reopen")) == s2, "a replica opened on the repaired storage does not show the full state");
+    assert!(state(&t) == s2, "the live replica stays behind after the damaged pack was completed");
+    sym::reach(1);
+}
+
 /// A live replica that has read (and verified) every object reads them again after one byte of the pack was replaced
 /// in place: each read fails or returns the value read before, never altered content (object cache capacity 1, so the
 /// values come from storage again).
